@@ -206,3 +206,8 @@ def codecOfJson (j : Json) : Codec :=
     par := fun s => match embs.find? (fun e => e.1 == s) with | some e => e.2 | none => none }
 
 end Pywbem.Model.CimJson
+
+namespace Pywbem.Model.CimJson
+open Lean Pywbem.Proto Pywbem.Model Pywbem.Model.XmlText
+
+end Pywbem.Model.CimJson
